@@ -1113,3 +1113,108 @@ theorem validNode_simple {S : Schema} {tn : String} {st : Simple} (hl : S.lookup
   simp only [validNode, shallow, hl, Xml.attrs, Xml.kids, Xml.text, List.isEmpty_nil, Bool.true_and, h, if_true, validKids]
 end CR.Xsd
 
+namespace CR.Xsd
+
+/-- the types assigned to the blocks -/
+def typeBlocks : List ElemP → List Nat → List String
+  | e :: es, c :: cs => List.replicate c e.type ++ typeBlocks es cs
+  | _, _ => []
+
+theorem matchElems_blocks_types : ∀ (es : List ElemP) (cs : List Nat), (es.map (·.name)).Nodup → RangesOk es cs →
+    matchElems es (blocks es cs) = some (typeBlocks es cs, [])
+  | [], [], _, _ => rfl
+  | [], _ :: _, _, h => by simp [RangesOk] at h
+  | _ :: _, [], _, h => by simp [RangesOk] at h
+  | e :: es, c :: cs, hnd, hr => by
+    rw [List.map_cons, List.nodup_cons] at hnd
+    obtain ⟨hr0, hr'⟩ := hr
+    have hts := matchElems_blocks_types es cs hnd.2 hr'
+    have hcp : countPrefix e.name (blocks (e :: es) (c :: cs)) = c := by
+      simp only [blocks]
+      rw [countPrefix_replicate, countPrefix_not_mem]
+      · rfl
+      · intro x hx; intro heq; subst heq; exact hnd.1 (blocks_head_mem hx)
+    have hm : matchElem e (blocks (e :: es) (c :: cs)) = some (List.replicate c e.type, blocks es cs) := by
+      unfold matchElem
+      simp only [hcp, capMax_of_le hr0.2]
+      have : ¬ c < e.min := by have := hr0.1; omega
+      rw [if_neg this]
+      simp [blocks]
+    simp only [matchElems, hm, hts, typeBlocks]
+
+theorem matchGroup_seq_once_types {items : List Item} {ns ts : List String} (h : matchItems items ns = some (ts, []))
+    (hne : ns ≠ []) : matchGroup (.seq items 1 (some 1)) ns = some ts := by
+  unfold matchGroup
+  cases ns with
+  | nil => exact absurd rfl hne
+  | cons n rest =>
+    simp [rep, atMax, h]
+
+/-- families of children for a sequence of element particles: every member carries the particle's name and is valid
+    against the particle's type, and the family size is within the occurrence range -/
+def FamsOk (S : Schema) : List ElemP → List (List Xml) → Prop
+  | [], [] => True
+  | e :: es, f :: fs => (∀ x ∈ f, x.name = e.name ∧ validNode S e.type x = true) ∧ inRange e f.length ∧ FamsOk S es fs
+  | _, _ => False
+
+theorem FamsOk.ranges {S : Schema} : ∀ {es : List ElemP} {fs : List (List Xml)}, FamsOk S es fs → RangesOk es (fs.map List.length)
+  | [], [], _ => trivial
+  | [], _ :: _, h => by simp [FamsOk] at h
+  | _ :: _, [], h => by simp [FamsOk] at h
+  | _ :: _, _ :: _, h => ⟨h.2.1, FamsOk.ranges h.2.2⟩
+
+theorem map_name_family {f : List Xml} {n : String} (h : ∀ x ∈ f, x.name = n) : f.map Xml.name = List.replicate f.length n := by
+  induction f with
+  | nil => rfl
+  | cons x xs ih =>
+    simp only [List.map_cons, List.length_cons, List.replicate_succ]
+    rw [h x List.mem_cons_self, ih (fun y hy => h y (List.mem_cons_of_mem _ hy))]
+
+theorem FamsOk.names {S : Schema} : ∀ {es : List ElemP} {fs : List (List Xml)}, FamsOk S es fs →
+    fs.flatten.map Xml.name = blocks es (fs.map List.length)
+  | [], [], _ => rfl
+  | [], _ :: _, h => by simp [FamsOk] at h
+  | _ :: _, [], h => by simp [FamsOk] at h
+  | e :: es, f :: fs, h => by
+    simp only [List.flatten_cons, List.map_append, List.map_cons, blocks]
+    rw [map_name_family (fun x hx => (h.1 x hx).1), FamsOk.names h.2.2]
+
+theorem validKids_family {S : Schema} {t : String} : ∀ {f : List Xml} {ts : List String} {ks : List Xml},
+    (∀ x ∈ f, validNode S t x = true) → validKids S (List.replicate f.length t ++ ts) (f ++ ks) = validKids S ts ks
+  | [], _, _, _ => by simp
+  | x :: xs, ts, ks, h => by
+    simp only [List.length_cons, List.replicate_succ, List.cons_append, validKids, h x List.mem_cons_self, Bool.true_and]
+    exact validKids_family (fun y hy => h y (List.mem_cons_of_mem _ hy))
+
+theorem FamsOk.valid {S : Schema} : ∀ {es : List ElemP} {fs : List (List Xml)}, FamsOk S es fs →
+    validKids S (typeBlocks es (fs.map List.length)) fs.flatten = true
+  | [], [], _ => by simp [typeBlocks, validKids]
+  | [], _ :: _, h => by simp [FamsOk] at h
+  | _ :: _, [], h => by simp [FamsOk] at h
+  | e :: es, f :: fs, h => by
+    simp only [List.map_cons, typeBlocks, List.flatten_cons]
+    rw [validKids_family (fun x hx => (h.1 x hx).2)]
+    exact FamsOk.valid h.2.2
+
+/-- **assembly of a sequence-typed element**: attributes valid, no character data, and the children are families of
+    valid elements laid out in the order of the type's (distinctly named) element particles — then the element is valid. -/
+theorem seq_assembly {S : Schema} {tn : String} {decl : List AttrP} {mixed : Bool} {g : Group}
+    (hl : S.lookup tn = some (.complex decl mixed g)) (hg : isPlainSeq g = true) (n : String) (a : List (String × String))
+    (ha : attrsOk S decl a = true) (fs : List (List Xml)) (hf : FamsOk S (elemsOf g) fs) (hne : fs.flatten ≠ []) :
+    validNode S tn (.node n a [] fs.flatten) = true := by
+  unfold isPlainSeq at hg
+  rw [Bool.and_eq_true] at hg
+  have h1 : g = .seq ((elemsOf g).map Item.elem) 1 (some 1) := by simpa using hg.1
+  have h2 : ((elemsOf g).map (·.name)).Nodup := by simpa using hg.2
+  have hm : matchGroup g (fs.flatten.map Xml.name) = some (typeBlocks (elemsOf g) (fs.map List.length)) := by
+    rw [hf.names]
+    have := matchElems_blocks_types (elemsOf g) (fs.map List.length) h2 hf.ranges
+    rw [← matchItems_elems] at this
+    have hne' : blocks (elemsOf g) (fs.map List.length) ≠ [] := by
+      rw [← hf.names]; intro h; exact hne (List.map_eq_nil_iff.mp h)
+    have := matchGroup_seq_once_types this hne'
+    rw [← h1] at this; exact this
+  rw [validNode_complex hl ha hm]
+  exact hf.valid
+
+end CR.Xsd
